@@ -476,6 +476,13 @@ def check_own_membership(case, domain, pts, P, out, stats):
     if bad.any():
         out.append(viol("C05", "own-samples", "own-sample-rejected", "",
                         rows_bad=int(bad.sum()), rows=rows, boundary=G.is_boundary(dom)))
+    elif G.is_boundary(dom):
+        # the clause is about EVERY point the boundary sampler generates: a sample far off the boundary that the
+        # (correct) membership test rejects is a disagreement between sampler and predicate as well
+        off = (G.dev(dom, P) > G.TOL_FAR) & ~a
+        if off.any():
+            out.append(viol("C05", "own-samples", "boundary-sampler-generates-points-its-membership-test-rejects", "",
+                            rows_bad=int(off.sum()), rows=rows))
 
 
 def check_probe_membership(case, domain, out, stats, n=400):
